@@ -42,7 +42,7 @@ func init() {
 	crStub := []string{"host.Host/network (simhost)", "pb.MessageSender (level A, labels by bucket)", "remote peers (scripted referral graph with dial/query failures)"}
 	sim.Register(&sim.Scenario{Prop: "C16", Name: "fullrt-crawl", Weight: 2, Run: func(s *sim.Sim) { runC16FullCrawl(s, false) },
 		Real: crReal, Stub: crStub,
-		Faults: []string{"fault_dial_fail", "fault_rpc_error", "fault_dial_timeout", "fault_rpc_timeout", "time_advance", "probe_dial_failure_during_crawl", "probe_partial_query_failure"}})
+		Faults: []string{"fault_dial_fail", "fault_rpc_error", "fault_dial_timeout", "fault_rpc_timeout", "time_advance", "probe_dial_failure_during_crawl", "probe_partial_query_failure", "probe_new_peer_after_reply_without_news"}})
 	sim.Register(&sim.Scenario{Prop: "C16", Name: "fullrt-recrawl", Weight: 1, Run: func(s *sim.Sim) { runC16FullCrawl(s, true) },
 		Real: crReal, Stub: crStub,
 		Faults: []string{"probe_second_crawl", "probe_dup_seed", "probe_host_forgot_crawled_peer", "probe_seed_without_address", "probe_addrless_seed_reachable_by_referral"}})
